@@ -37,4 +37,12 @@ CHECKS = {
         text="All grids/rows/queries of the bounded scope are executed on the real readers, writers, slicer and row interpolator and compared with a boring reference (array equality; (1-t)G[i]+tG[i+1]; piecewise-linear pre-image interval). Shipped tables are validated node by node.",
         note="names with '/' or non-ASCII outside the alphabet; FITS big-endian accepted; one data defect in the unused nuleptonsim table is a recorded known finding",
     ),
+    "C05": dict(
+        engine="E1-lattice+E2-history",
+        level="model_checking",
+        design_ref="DESIGN.md §3 C05",
+        technique="explicit-state BFS over all call histories (depth 3/4, 7-op alphabet of same-shaped calls with different clamp masks) on one live Taus object, state = hash of all reachable arrays, plus the same sequences un-deduplicated; and exhaustive lattice over every table node, cell/edge mid-point and clamp angle of all three table versions",
+        text="Every reachable state of the Taus object under the op alphabet is visited and in each every op is compared bit for bit with a fresh object; every node/mid-point/clamp point is compared with an independent bilinear-in-log10 reference read straight from the HDF5 files.",
+        note="state hash is finer than necessary (all arrays reachable from __dict__); hidden state outside the object is covered by the un-deduplicated sequence pass; floor accepted to 1e-5 relative",
+    ),
 }
